@@ -470,8 +470,11 @@ def case_fusetuple(ctx, inp):
     except IndexError:
         real, outcome = None, "indexerr"
     # integer and integer array in the inner tuple: NumPy moves the array's axis first (fixed 9b94af4: refused now)
-    sig = "fuse_slice:list+int-inner-tuple:axis-order" if fancy and any(isinstance(i, int) for i in a) \
-        and any(isinstance(i, dict) for i in a) else None
+    # and an integer plus an array in the FUSED index (fixed 17ed8d6: refused now)
+    sig = None
+    if fancy:
+        sig = "fuse_slice:list+int-inner-tuple:axis-order" if any(isinstance(i, int) for i in a) \
+            and any(isinstance(i, dict) for i in a) else "fuse_slice:list+int-in-fused-index:axis-order"
     if outcome == "ok":
         try:
             got = x[real]
@@ -525,6 +528,48 @@ def case_fusetuple(ctx, inp):
         ctx.branch("fusetuple-uneven")
     if any(isinstance(i, int) for i in b):
         ctx.branch("fusetuple-int-in-b")
+
+
+def gen_fusetuple_fancy(rng):
+    """an integer array in one of the tuples, ONE integer and one or two new axes in the other (sometimes an integer next
+    to the array as well): NumPy counts integers as advanced indices, so these are the delicate inputs of the list support
+    of fuse_slice (where does the array's axis end up?)"""
+    import numpy as np
+
+    def rs(ln):
+        st = rng.choice([None, 1, 1, 2])
+        s0 = rng.choice([None, 0, rng.randrange(ln + 1)])
+        return [s0, rng.choice([None, None, rng.randint(s0 or 0, ln)]), st]
+
+    def build(shape, kind):
+        """kind 'list': the array on one axis (+ maybe an integer); 'int': exactly one integer, 1-2 None; rest slices"""
+        nz = [k for k, ln in enumerate(shape) if ln > 0]
+        idx = [rs(ln) if rng.random() < 0.6 else [None, None, None] for ln in shape]
+        if kind == "list" and nz:
+            k = rng.choice(nz)
+            idx[k] = {"list": [rng.randrange(shape[k]) for _ in range(rng.randint(1, 3))]}
+            others = [j for j in nz if j != k]
+            if others and rng.random() < 0.3:
+                j = rng.choice(others)
+                idx[j] = rng.randrange(shape[j])
+            nn = rng.choice([0, 1, 1])
+        else:
+            if nz and rng.random() < 0.9:
+                k = rng.choice(nz)
+                idx[k] = rng.randrange(shape[k])
+            nn = rng.choice([1, 1, 2, 2])
+        for _ in range(nn):
+            idx.insert(rng.randint(0, len(idx)), None)
+        return idx
+    while True:
+        dims = [rng.randint(1, 6) for _ in range(rng.randint(2, 3))]
+        in_a = rng.random() < 0.5
+        a = build(dims, "list" if in_a else "int")
+        probe = np.zeros(dims, dtype="i1")[tuple(_ix_py(i) for i in a)]
+        if probe.ndim == 0:
+            continue
+        b = build(probe.shape, "int" if in_a else "list")
+        return {"dims": dims, "a": a, "b": b}
 
 
 def gen_fusetuple(rng):
@@ -710,8 +755,21 @@ def generate(ctx):
     yield "fusetuple", {"dims": [4, 5, 6], "a": [3, [None, None, None], {"list": [0, 1, 2]}],
                         "b": [[0, 2, None], [None, None, None]]}               # x[3, :, [0, 1, 2]] has shape (3, 5)
     yield "fusetuple", {"dims": [6, 5], "a": [0, {"list": [4, 3]}], "b": [None, [None, None, None]]}
+    yield "fusetuple", {"dims": [5, 4], "a": [[3, None, 1], {"list": [0, 0]}], "b": [None, 0, None, [0, 0, 1]]}
     for _ in range(ctx.n(400, 6000)):
         yield "fusetuple", gen_fusetuple(rng)
+    for _ in range(ctx.n(150, 2500)):
+        # four of five candidates are refused (NotImplementedError) — the delicate ones are those fuse_slice ACCEPTS:
+        # draw until it accepts one (at most 8 times)
+        from dask.array.optimization import fuse_slice
+        for _try in range(8):
+            inp = gen_fusetuple_fancy(rng)
+            try:
+                fuse_slice(tuple(_ix_py(i) for i in inp["a"]), tuple(_ix_py(i) for i in inp["b"]))
+                break
+            except Exception:
+                continue
+        yield "fusetuple", inp
     for _ in range(ctx.n(80, 1100)):
         yield "slicechain", gen_slicechain(rng)
     for _ in range(ctx.n(170, 2200)):
